@@ -32,6 +32,14 @@ def cases(tier, seed):
     for inst in sweep.cyc_instances(tier, seed, per_shape=3):
         for cls in FD[2:]:
             yield dict(inst, cls=cls)
+    # non-negative flows: arcs (and, in the node twin, nodes) carrying 0
+    for inst in sweep.dag_zero_flow_instances(tier, seed):
+        for cls in FD[:2]:
+            yield dict(inst, cls=cls)
+    # float data whose sums are not exact in binary floating point
+    for inst in sweep.dag_float_data_instances(tier, seed):
+        for cls in FD[:2]:
+            yield dict(inst, cls=cls)
 
 
 def run(case):
@@ -47,7 +55,12 @@ def run(case):
     key = world.shape_key((len(inst["nodes"]), tuple(E))) + "|" + ",".join(str(a[2]) for a in inst["arcs"]) + "|" + cls
     is_k = cls.startswith("k")
     sib = "MinFlowDecompCycles" if cyc else "MinFlowDecomp"
-    o = drivers.observe(dict(inst, cls=sib, kw={"weight_type": "int"}))
+    fdata = bool(case.get("float_data"))
+    if fdata:
+        import flowpaths.utils.graphutils as gu
+        if not gu.check_flow_conservation(drivers.build_graph(inst), "flow"):
+            return {"v": [], "nt": None, "tags": {"float_data_not_exactly_conserving(skipped)": 1}, "out": "skip"}
+    o = drivers.observe(dict(inst, cls=sib, kw={"weight_type": "float" if fdata else "int"}))
     if not o["solved"]:
         return {"v": [{"kind": "min_sibling_unsolved", "msg": f"{sib} did not solve a decomposable instance: {o['exc']}"}], "nt": None, "tags": {}, "out": "skip"}
     k0 = len(o["sol"][rkey])
@@ -99,6 +112,11 @@ def run(case):
         if not cyc:
             add("int,constraint,greedy_off", {"weight_type": "int", ckey: [con], "optimization_options": {"optimize_with_greedy": False}})
 
+    if fdata:
+        cfgs = [c for c in cfgs if c[0].startswith("float") and "node" not in c[0] and "superset" not in c[0]]
+        if is_k:
+            cfgs.append(("float,k+2", {"weight_type": "float", "k": k0 + 2}, None, "edge", []))
+            cfgs.append(("float,k+2,greedy_off", {"weight_type": "float", "k": k0 + 2, "optimization_options": {"optimize_with_greedy": False}}, None, "edge", []))
     for name, kw, inst2, origin, ignored in cfgs:
         use = inst2 or inst
         kw = dict(kw)
